@@ -35,7 +35,7 @@ Inductive step_res :=
 
 (* one iteration of the loop body for the physical line [line0] *)
 Definition step (c : cfg) (g : gstate) (l : lstate) (line0 : str) : step_res :=
-  let in_quote := unterminated (linebuffer l) in
+  let in_quote := qstate (linebuffer l) in
   if first_is hash (strip line0) then SNext g l false else
   (* preceding documentation *)
   let m1 := match_mark (predocmark c) line0 in_quote in
